@@ -407,6 +407,10 @@ func Schedule(r *Rand, n int, flushes []int, style string) []Op {
 				ops = append(ops, Op{Kind: "write", N: k})
 			}
 		}
+		if style == "zeros" && r.Bool() {
+			// also between two Flushes at the same position
+			ops = append(ops, Op{Kind: "write", N: 0})
+		}
 		ops = append(ops, Op{Kind: "flush"})
 		prev = f
 	}
